@@ -1501,7 +1501,8 @@ def check_c07(res, ctx):
     for x in rlines:
         if x.startswith("DIFF"):
             ctx.found_input = True
-            res.violation("c07 real pipe: skipping behaves differently on a pipe than on the regular file: " + x[:300], [x], True)
+            res.violation("c07 real pipe: skipping behaves differently on a pipe than on the regular file: " + x[:300],
+                          ["realpipe " + x.split()[-1]], True)
             break
     if rr.returncode not in (0, 1) or len(rlines) != len(rfiles):
         ctx.found_input = True
@@ -1758,7 +1759,8 @@ def real_sink_stage(res, ctx):
     for x in rlines:
         if x.startswith("DIFF"):
             ctx.found_input = True
-            res.violation("c13 real sink: a write reported OK although the stream had refused bytes (an earlier call failed, or the error indicator is set): " + x[:300], [x], True)
+            res.violation("c13 real sink: a write reported OK although the stream had refused bytes (an earlier call failed, or the error indicator is set): " + x[:300],
+                          ["realsink " + x.split()[-1]], True)
             break
     if rr.returncode not in (0, 1) or len(rlines) < len(files):
         ctx.found_input = True
@@ -2166,6 +2168,17 @@ def run(pid, tier, seed):
 
 def replay(pid, path):
     lines = [l.rstrip("\n") for l in open(path) if not l.startswith("#") and l.strip()]
+    # files fed through a real pipe / written to real failing sinks: run the small harness program on them
+    for l in [x for x in lines if x.startswith(("realpipe ", "realsink "))]:
+        kind, fn = l.split(" ", 1)
+        exe = core.build_harness("rpipe" if kind == "realpipe" else "rsink", main=kind + ".c")
+        rr = subprocess.run([exe, fn], stdout=subprocess.PIPE, stderr=subprocess.STDOUT, text=True, env=core.ENV)
+        print("scenario:       " + l)
+        print("implementation: " + clean(rr.stdout).strip().replace("\n", "\n                "))
+        print("agree:          %s" % ("DIFF" not in rr.stdout and rr.returncode == 0))
+    lines = [x for x in lines if not x.startswith(("realpipe ", "realsink "))]
+    if not lines:
+        return 0
     ctx = Ctx(pid, "quick", 0)
     core.lake_build(["sbdf_drv"])
     for variant, margs in (("asan", ()),):
